@@ -994,13 +994,13 @@ func tamperRun(c *Ctx, sp tamperSpec, fs []fault, count bool, api string) tamper
 
 func runGcmFormat(c *Ctx) error {
 	drawnIVs = nil
-	c.Res.Rule = "all base IVs drawn by SetSymmetricKey during the run pairwise distinct, also in their last 12 bytes, every byte position varying; every (key, 16-byte nonce) pair of the run used once across endpoints, directions and sessions; send histories: cleartext prelude of every shape (none, one way, both ways, empty frames), SetSymmetricKey on both ends, interleaved sends in both directions (sizes incl. 0), secrets sent with encryption toggled off, counters started near 2^32 through NewStreamWithCryptoState; every emitted frame is opened by the independent refcodec (nonce = base IV + counter in the leading word, IV on first frame only, AAD = [digests] header) and refcodec-built frames are fed to the real receiver; distinct by op-sequence hash; non-trivial = ≥1 sealed frame"
+	c.Res.Rule = "all base IVs drawn by SetSymmetricKey during the run pairwise distinct, also in their last 12 bytes, every byte position varying; every (key, 16-byte nonce) pair of the run used once across endpoints, directions and sessions; send histories: cleartext prelude of every shape (none, one way, both ways, empty frames), SetSymmetricKey on both ends, interleaved sends in both directions (sizes incl. 0), secrets sent with encryption toggled off, counters started near 2^32 through NewStreamWithCryptoState and driven to the limit through every sending API (SendMessage, SendPartialMessage, WriteMessage flush, EndMessage, PutSecret with encryption on/off, typed Message FlushFrame/FinishMessage), the refusal checked on the bytes really written to the connection; every emitted frame is opened by the independent refcodec (nonce = base IV + counter in the leading word, IV on first frame only, AAD = [digests] header) and refcodec-built frames are fed to the real receiver; distinct by op-sequence hash; non-trivial = ≥1 sealed frame"
 	var cases []Case
 	n := c.Pick(500, 8000)
 	for i := 0; i < n; i++ {
 		cases = append(cases, gcmHistory(c, i))
 	}
-	for i := 0; i < c.Pick(40, 300); i++ {
+	for i := 0; i < c.Pick(120, 600); i++ {
 		cases = append(cases, gcmNearWrap(c, i))
 	}
 	for i := 0; i < c.Pick(150, 2000); i++ {
@@ -1196,40 +1196,117 @@ func checkOpenable(c *Ctx, w *sworld) {
 	}
 }
 
+// the sending APIs of a stream, each used so that an accepted call puts exactly ONE frame on the wire:
+// SendMessage, SendPartialMessage, the buffered writer flushing at the 4 KiB threshold (WriteMessage ->
+// flushPartialFrame), the buffered writer's EndMessage, PutSecret (encryption on, and switched off around
+// it), and the typed layer (Message.PutBytes + FlushFrame(false) / FinishMessage -> WriteFrame)
+var wrapAPIs = []string{"send1", "send0", "wflush", "wend", "secret", "secret-off", "typed0", "typed1"}
+
+// emitVia sends one frame's worth of data through the named API; returns the error of the call that
+// would put the frame on the wire.
+func (w *sworld) emitVia(c *Ctx, n, api string) error {
+	small := randBytes(c, c.Rng.Intn(10))
+	switch api {
+	case "send1":
+		return w.send(n, 1, small)
+	case "send0":
+		return w.send(n, 0, small)
+	case "wflush":
+		w.start(n)
+		return w.write(n, fillBytes(4096+c.Rng.Intn(8), byte(0x61+c.Rng.Intn(20))))
+	case "wend":
+		w.start(n)
+		if err := w.write(n, small); err != nil {
+			return err
+		}
+		return w.end(n)
+	case "secret":
+		return w.secret(n, bytes.ReplaceAll(small, []byte{0}, []byte{1}))
+	case "secret-off":
+		w.crypto(n, false)
+		err := w.secret(n, bytes.ReplaceAll(small, []byte{0}, []byte{1}))
+		w.crypto(n, true)
+		return err
+	case "typed0":
+		return w.typedFrame(n, small, false)
+	default: // typed1
+		return w.typedFrame(n, small, true)
+	}
+}
+
 func gcmNearWrap(c *Ctx, idx int) Case {
 	w := newWorld()
 	start := uint32(0xffffffff - uint32(c.Rng.Intn(4)))
-	var iv [16]byte
+	var iv, ivB [16]byte
 	copy(iv[:], randBytes(c, 16))
+	copy(ivB[:], randBytes(c, 16))
 	if c.Rng.Intn(2) == 0 {
 		binary.BigEndian.PutUint32(iv[:4], 0xfffffffe) // nonce word wraps while the counter does not
 	}
-	fa := &blobFields{flags: 1 | 4 | 8, key: keyBytes(5), eiv: iv, div: iv, ectr: start, dctr: 1, fs: make([]byte, 32), fr: make([]byte, 32)}
-	fb := &blobFields{flags: 1 | 4 | 8, key: keyBytes(5), eiv: iv, div: iv, ectr: 1, dctr: start, fs: make([]byte, 32), fr: make([]byte, 32)}
+	fa := &blobFields{flags: 1 | 4 | 8, key: keyBytes(5), eiv: iv, div: ivB, ectr: start, dctr: 1, fs: make([]byte, 32), fr: make([]byte, 32)}
+	fb := &blobFields{flags: 1 | 4 | 8, key: keyBytes(5), eiv: ivB, div: iv, ectr: 1, dctr: start, fs: make([]byte, 32), fr: make([]byte, 32)}
 	_ = w.importBlob("A", buildBlob(fa))
 	_ = w.importBlob("B", buildBlob(fb))
+	// the first cases walk every API up to the limit on its own; the rest mix them
+	only := ""
+	if idx < 2*len(wrapAPIs) {
+		only = wrapAPIs[idx%len(wrapAPIs)]
+		if idx < len(wrapAPIs) {
+			start = 0xffffffff // the very next frame is the one that must be refused
+			fa.ectr, fb.dctr = start, start
+			w = newWorld()
+			_ = w.importBlob("A", buildBlob(fa))
+			_ = w.importBlob("B", buildBlob(fb))
+		}
+	}
+	pickAPI := func() string {
+		if only != "" {
+			return only
+		}
+		return wrapAPIs[c.Rng.Intn(len(wrapAPIs))]
+	}
+	a := w.ep("A")
+	ctr := uint64(start) // frames accepted so far + start = the counter the next frame would use
 	for i := 0; i < 5; i++ {
-		if err := w.send("A", 1, randBytes(c, c.Rng.Intn(10))); err != nil {
-			if start+uint32(i) != 0xffffffff {
-				c.Violate(Violation{Property: "C12", Key: "C12:early-refusal", What: "send refused before the counter limit", Ops: w.ops, Expected: "ok", Observed: err.Error()})
+		api := pickAPI()
+		before := len(a.c.AllOut)
+		err := w.emitVia(c, "A", api)
+		if err != nil {
+			if ctr != 0xffffffff {
+				c.Violate(Violation{Property: "C12", Key: "C12:early-refusal:" + api, What: "send refused before the counter limit", Ops: append([]string{}, w.ops...), Expected: "ok", Observed: err.Error()})
+				break
 			}
-			// the refusal is permanent: a caller that keeps sending is refused every time, and
-			// nothing reaches the wire (a counter that wrapped on the refused attempt would start
-			// again at the base IV — the nonce of the session's first frame)
-			for k := 0; k < 3; k++ {
-				before := len(w.pending["B"])
-				if err2 := w.send("A", 1, randBytes(c, 1+c.Rng.Intn(10))); err2 == nil || len(w.pending["B"]) != before {
-					c.Violate(Violation{Property: "C12", Key: "C12:refusal-not-permanent", What: "after refusing to send at the counter limit the stream sent a later frame (the counter wrapped)", Ops: append([]string{}, w.ops...), Expected: "err counterMax again, nothing written", Observed: fmt.Sprintf("attempt %d after the refusal: err=%v, %d bytes written", k+1, err2, len(w.pending["B"])-before)})
+			if n := len(a.c.AllOut) - before; n != 0 {
+				c.Violate(Violation{Property: "C12", Key: "C12:refused-send-wrote-bytes:" + api, What: "the call that refused to send at the counter limit nevertheless wrote bytes to the connection", Ops: append([]string{}, w.ops...), Expected: "nothing written", Observed: fmt.Sprintf("%d bytes written by the refused call", n)})
+			}
+			// the refusal is permanent, whatever API the caller tries next: refused every time, and
+			// NOTHING reaches the connection (a counter that wrapped on a refused attempt would start
+			// again at the base IV — the nonce of the session's first frame). The bytes are counted on
+			// the connection itself: the world discards the output of a failed call.
+			for k := 0; k < 4; k++ {
+				api2 := wrapAPIs[c.Rng.Intn(len(wrapAPIs))]
+				before := len(a.c.AllOut)
+				err2 := w.emitVia(c, "A", api2)
+				if n := len(a.c.AllOut) - before; err2 == nil || n != 0 {
+					c.Violate(Violation{Property: "C12", Key: "C12:refusal-not-permanent:" + api2, What: "after refusing to send at the counter limit the stream sent a later frame (the counter wrapped)", Ops: append([]string{}, w.ops...), Expected: "err counterMax again, nothing written", Observed: fmt.Sprintf("attempt %d (%s) after the refusal: err=%v, %d bytes written to the connection", k+1, api2, err2, n)})
 					break
 				}
 			}
 			break
 		}
-		if uint64(start)+uint64(i) >= 0xffffffff {
-			c.Violate(Violation{Property: "C12", Key: "C12:counter-wrap", What: "stream sent a frame at/after the counter limit instead of refusing", Ops: w.ops, Expected: "err counterMax", Observed: "ok"})
+		if ctr >= 0xffffffff {
+			c.Violate(Violation{Property: "C12", Key: "C12:counter-wrap:" + api, What: "stream sent a frame at/after the counter limit instead of refusing (through " + api + ")", Ops: append([]string{}, w.ops...), Expected: "err counterMax", Observed: fmt.Sprintf("ok, %d bytes written", len(a.c.AllOut)-before)})
 			break
 		}
-		if _, _, err := w.recvf("B"); err != nil {
+		ctr++
+		if api == "secret-off" {
+			w.crypto("B", false)
+			_, err = w.getsecret("B")
+			w.crypto("B", true)
+		} else {
+			_, _, err = w.recvf("B")
+		}
+		if err != nil {
 			break
 		}
 	}
@@ -1237,6 +1314,9 @@ func gcmNearWrap(c *Ctx, idx int) Case {
 	w.finish()
 	c.Distinct(strings.Join(w.ops, "\n"), true)
 	c.Count("kind:nearwrap")
+	if only != "" {
+		c.Count("nearwrap-api:" + only)
+	}
 	if idx == 0 {
 		c.Sample(map[string]any{"ops": abbreviate(w.ops), "real": abbreviate(w.real)})
 	}
